@@ -421,6 +421,7 @@ def w_rec(rep, ex: Explorer, be: Backend):
         Fm = ("mcs", sides["f"].cid)
         # ---- decisions of the path
         S = K0 = X = E = None
+        EMPT = {}
         loop_ev = None
         for key, val in p.decisions:
             if key[0] in ("forall", "exists", "not") or (key[0] == "subset"):
@@ -433,6 +434,8 @@ def w_rec(rep, ex: Explorer, be: Backend):
                 continue
             elif key[0] == "empty" and isinstance(key[1], tuple) and key[1][:2] == ("setop", "&") and set(key[1][2:]) == {V, Fm}:
                 E = val  # "are there ties at all", asked in front of the tie loop
+            elif key[0] == "empty" and key[1] in (V, Fm):
+                EMPT[key[1]] = val  # one of the two families asked for emptiness in front of the comparison
             elif key[0] == "truthy" and isinstance(key[1], tuple) and key[1][:1] == ("acc",):
                 # a value a loop left behind (that of its last round) is consulted after the loop
                 rep.violation("W.decision", site, "every tie", "the answer of the recursion is consulted for every tie, inside the loop over the ties",
@@ -442,6 +445,24 @@ def w_rec(rep, ex: Explorer, be: Backend):
             else:
                 raise AnalysisError(f"{site}: outcome depends on {key!r}")
         if S == "reported":
+            continue
+        if S is None and EMPT and isinstance(_bool_outcome(p), bool):
+            # a short cut in front of the comparison: the answer is a constant once a family is known to be empty (or not) -
+            # compared with ∀y∈F ∃x∈V: x⊆y on every pair of families with that emptiness
+            out = _bool_outcome(p)
+            spec = ("forall", ("var", "y"), ("members", Fm), PTRUE, ("exists", ("var", "x"), ("members", V), PTRUE, ("subset", ("var", "x"), ("var", "y"))))
+            bad = None
+            for fv in _families():
+                for ff in _families():
+                    fams = {V: fv, Fm: ff}
+                    if any((len(fams[k_]) == 0) != v_ for k_, v_ in EMPT.items()):
+                        continue
+                    if eval_setpred(spec, fams, {}) != out and bad is None:
+                        bad = f"V={[sorted(x) for x in fv]}, F={[sorted(x) for x in ff]}"
+            n_rows += 1
+            how = ", ".join(f"{'V' if k_ == V else 'F'} {'empty' if v_ else 'not empty'}" for k_, v_ in EMPT.items())
+            rep.check(bad is None, "W.decision", site, f"short cut ({how})", "an answer given without the comparison is the one the comparison would give: ∀y∈F ∃x∈V: x⊆y",
+                      extracted=f"{out}" + (f", but the comparison gives {not out} for {bad}" if bad else " on every such pair of families"), required="∀y∈F ∃x∈V: x⊆y", function=site)
             continue
         if S is None:
             rep.violation("W.subset-test", site, "subset test", "the answer is decided without comparing the two families of minimal correction sets",
